@@ -1,7 +1,7 @@
 """C15 - IFC-67 routines (t2thermo) agree with IAPWS-97 and with themselves on their common range."""
 import math
 from hypothesis import strategies as st
-from vlib.core import Search, HarnessError
+from vlib.core import Search, HarnessError, Refused
 from props.c14 import richardson, maxwell_tp, decade, lin, clamp, rel, num, DELTAS
 
 ID = 'C15'
@@ -462,7 +462,7 @@ def two(R, x, what, at):
     return float(x[0]), float(x[1])
 
 
-class NoValue(Exception):
+class NoValue(Refused):        # (Refused passes through R.lib untouched)
     pass
 
 
@@ -515,6 +515,9 @@ def case_fluid(R, T, I, kind, t, p):
     hp, ht = (HP1, HT1) if liq else (HP2REL * p, HT2)
     if p - hp <= 0:
         R.label('fd-skipped'); return           # the stencil would need a negative pressure
+    inr = in_cowat if liq else in_supst
+    if not all(inr(tt, pp) for tt in (t - ht, t, t + ht) for pp in (p - hp, p, p + hp)):
+        R.label('fd-skipped'); return           # every stencil point must lie inside the routine's stated range
     try:
         with R.lib('fd:' + name):
             res = maxwell_tp(lambda x, y: _pair(f67(x, y), name, x, y), t, p, hp, ht)
